@@ -15,6 +15,8 @@ struct GenCfg {
     bool big = false;         // allow payloads up to 70000 bytes
     bool scalars_rich = true; // full integer / double / length distributions (else tiny scalars)
     bool objects_favoured = false;
+    bool allow_wide = true;   // allow one container with hundreds of children
+    unsigned wide_max = 1000;  // largest child count of the wide class
     size_t max_bytes = 300000;
 };
 
@@ -86,7 +88,14 @@ inline uint64_t gen_double_bits(Src &s) {
 }
 
 inline size_t gen_len(Src &s, bool big) {
-    switch (s.u8() % 16) {
+    uint8_t sel = s.u8();
+    if (sel >= 0xf0) {
+        // magnitudes at and around powers of two: 2^k-1, 2^k, 2^k+1 (k = 1..10, with `big` up to 2^16), 1000, 4095..4097
+        unsigned k = 1 + s.u8() % (big ? 16 : 10);
+        size_t v = ((size_t)1 << k) + (size_t)(s.u8() % 3) - 1;
+        return v > 70000 ? 70000 : v;
+    }
+    switch (sel % 16) {
     case 0: case 1: case 2: case 3: case 4: case 5: case 6: case 7: case 8: case 9: return s.u8() % 4;
     case 10: case 11: return s.u8() % 24;
     case 12: return 120 + s.u8() % 16;
@@ -149,6 +158,7 @@ struct TreeGen {
     GenCfg cfg;
     unsigned nodes = 0;
     size_t bytes = 0;
+    bool wide_used = false;
     TreeGen(Src &src, const GenCfg &c) : s(src), cfg(c) {}
 
     void scalar(Value &v, unsigned sel) {
@@ -180,7 +190,35 @@ struct TreeGen {
         }
         if (k == ref::K_NONE) { scalar(v, b / 10); return; }
         v.k = k;
-        unsigned n = s.dry() ? 0 : s.u8() % (cfg.max_fan + 1);
+        uint8_t nsel = s.dry() ? 0 : s.u8();
+        unsigned n = nsel % (cfg.max_fan + 1);
+        if (cfg.allow_wide && nsel >= 0xf4 && !wide_used && depth <= 2) {
+            // one wide container per tree: hundreds of small children (counts at and around 127/128, 255/256/257, 300, 1000)
+            static const uint16_t wn[] = {127, 128, 129, 254, 255, 256, 257, 300, 511, 512, 1000};
+            unsigned cnt = wn[s.u8() % 11];
+            if (cnt > cfg.wide_max) cnt = 257;
+            wide_used = true;
+            uint8_t kind = s.u8();
+            for (unsigned i = 0; i < cnt; i++) {
+                Value ch;
+                switch (kind % 5) {
+                case 0: ch.k = ref::K_INT; ch.i = (int64_t)i - 7; break;
+                case 1: ch.k = ref::K_BOOL; ch.b = i & 1; break;
+                case 2: ch.k = (i % 3) ? ref::K_INT : ref::K_ARR; ch.i = i; break;           // every third child an empty array
+                case 3: ch.k = (i % 5) ? ref::K_STR : ref::K_OBJ; if (ch.k == ref::K_STR) ch.s = Bytes(i % 3, (uint8_t)'s'); break;
+                default: ch.k = ref::K_BYT; ch.s = Bytes(i % 2, 0x80); break;
+                }
+                if (k == ref::K_OBJ) {
+                    ch.has_name = true;
+                    // strictly ascending 2-byte names; style: plain big-endian counter, or counter with a high first byte
+                    ch.name = Bytes{(uint8_t)(((kind & 0x80) ? 0x80 : 0x20) + (i >> 8)), (uint8_t)(i & 0xff)};
+                }
+                v.c.push_back(std::move(ch));
+            }
+            nodes += cnt;
+            bytes += cnt * 4;
+            return;
+        }
         if (k == ref::K_OBJ) {
             unsigned style = s.u8();
             std::vector<Bytes> names;
@@ -215,21 +253,32 @@ inline Value gen_tree(Src &s, const GenCfg &cfg, bool array_root) {
 }
 
 // A chain of `levels` nested containers (deep-nesting class). pattern bit i: 1 = array, 0 = object.
+inline Value gen_tree(Src &s, const GenCfg &cfg, bool array_root);
+
 inline Value gen_chain(Src &s, unsigned levels, bool array_root, unsigned style) {
-    // style 0: all same kind as root, 1: alternate, 2: from bytes
+    // style%4 0: all same kind as root, 1: alternate, 2: from bytes, 3: mostly arrays; style >= 4: rich innermost element
     std::vector<ref::Kind> kinds;
     for (unsigned i = 0; i < levels; i++) {
         ref::Kind k;
         if (i == 0) k = array_root ? ref::K_ARR : ref::K_OBJ;
-        else if (style == 0) k = kinds[0];
-        else if (style == 1) k = kinds[i - 1] == ref::K_ARR ? ref::K_OBJ : ref::K_ARR;
-        else if (style == 2) k = s.flag() ? ref::K_ARR : ref::K_OBJ;
+        else if (style % 4 == 0) k = kinds[0];
+        else if (style % 4 == 1) k = kinds[i - 1] == ref::K_ARR ? ref::K_OBJ : ref::K_ARR;
+        else if (style % 4 == 2) k = s.flag() ? ref::K_ARR : ref::K_OBJ;
         else k = (i % 7 == 3) ? ref::K_OBJ : ref::K_ARR;
         kinds.push_back(k);
     }
     Value leaf;
     leaf.k = ref::K_INT;
     leaf.i = 5;
+    if (style >= 4) {
+        // the innermost element is a small generated tree instead of a single integer
+        GenCfg g;
+        g.max_nodes = 8;
+        g.max_depth = 2;
+        g.max_fan = 3;
+        g.allow_wide = false;
+        leaf = gen_tree(s, g, s.flag());
+    }
     Value cur = leaf;
     for (unsigned i = levels; i-- > 0;) {
         Value c;
